@@ -164,7 +164,7 @@ size_t lp_feasibility_set_int_size_approx(const lp_feasibility_set_int_t *set) {
 }
 
 int lp_feasibility_set_int_is_point(const lp_feasibility_set_int_t* set) {
-  assert(lp_integer_cmp_int(lp_Z, &set->K->M, 2) > 0);
+  assert(lp_integer_cmp_int(lp_Z, &set->K->M, 2) >= 0);
   if (!set->inverted && set->size == 1) return 1;
   if (set->inverted && lp_integer_cmp_int(lp_Z, &set->K->M, set->size + 1) == 0) return 1;
   return 0;
